@@ -339,15 +339,15 @@ fn stream_case() -> impl Strategy<Value = StreamCase> {
 }
 
 pub fn run(ctx: &Ctx, rep: &mut Report) {
-    let cases = ctx.share(ctx.tier.pick(20_000, 1_000_000));
+    let cases = ctx.share(ctx.tier.pick(50_000, 1_000_000));
     engine::drive(ctx, rep, "iovec-histories", iovec_sm::history(Mix::Memory, 60), cases, check_history);
-    let cases = ctx.share(ctx.tier.pick(4_000, 200_000));
+    let cases = ctx.share(ctx.tier.pick(10_000, 200_000));
     engine::drive(ctx, rep, "iovec-general-histories", iovec_sm::history(Mix::General, 80), cases, check_history);
-    let cases = ctx.share(ctx.tier.pick(4_000, 200_000));
+    let cases = ctx.share(ctx.tier.pick(10_000, 200_000));
     engine::drive(ctx, rep, "codec-anchored", anchored_codec_case(), cases, check_codec);
-    let cases = ctx.share(ctx.tier.pick(8_000, 400_000));
+    let cases = ctx.share(ctx.tier.pick(20_000, 400_000));
     engine::drive(ctx, rep, "chunker-held-chunks", stream_case(), cases, check_chunker);
-    let cases = ctx.share(ctx.tier.pick(8_000, 400_000));
+    let cases = ctx.share(ctx.tier.pick(20_000, 400_000));
     engine::drive(ctx, rep, "reader-kept-records", stream_case(), cases, check_reader);
 }
 
